@@ -22,6 +22,7 @@ type c04Case struct {
 	HasC     bool
 	Val      string
 	Result   string // lib | int | strings | wrongstruct
+	Pipe     []byte // transfer-filter pipe of the request (the reply travels through it too)
 	Accept   string // reply codec the caller asks for: "" | json | xml | form | unreg (an id nobody registered: the request is to be ignored)
 }
 
@@ -71,6 +72,18 @@ func genC04(t *rapid.T, protos []string) c04Case {
 		c.Msg, c.CauseTxt = strings.ReplaceAll(c.Msg, "�", "?"), strings.ReplaceAll(c.CauseTxt, "�", "?")
 	}
 	c.Val = rapid.StringMatching(`[a-zA-Z0-9 ]{0,40}`).Draw(t, "val")
+	switch rapid.IntRange(0, 5).Draw(t, "pipeclass") {
+	case 0:
+		c.Pipe = []byte{vt.XGzip5}
+	case 1:
+		if c.Proto != "http" { // the HTTP-style protocol supports gzip only
+			c.Pipe = []byte{vt.XMd5}
+		}
+	case 2:
+		if c.Proto != "http" {
+			c.Pipe = []byte{vt.XGzip1, vt.XMd5}
+		}
+	}
 	c.Result = "lib"
 	if c.Cause == "result-mismatch" {
 		c.Result = rapid.SampledFrom([]string{"int", "strings", "wrongstruct"}).Draw(t, "result")
@@ -284,6 +297,9 @@ func runC04(c c04Case) (string, vt.StatusTriple) {
 	case strings.HasPrefix(c.Cause, "rveto-"):
 		settings = append(settings, erpc.WithAddMeta("Rveto", strings.TrimPrefix(c.Cause, "rveto-")))
 	}
+	if len(c.Pipe) > 0 {
+		settings = append(settings, erpc.WithXferPipe(c.Pipe...))
+	}
 	wantReplyCodec := codecID(c.Codec)
 	switch c.Accept {
 	case "":
@@ -394,7 +410,7 @@ func (c c04Case) knownKey() string {
 	return ""
 }
 
-const ruleC04 = "one call per case: cause in {handler OK (nil status or an explicit status object with code 0), handler status (any int32 code, any msg/cause bytes within the codec's text domain), unknown route, undecodable request body, handler panic, server-side veto at each pre-handler stage, caller-side veto before writing and at each reply-reading stage, connection cut while the handler runs, result-type mismatch} x protocol {raw,json,pb,http,ws+json,ws+pb over the real websocket upgrade} x body codec {json,xml,form} x reply codec asked for {none, json, xml, form, an unregistered id}; oracle: small model of the expected (code,msg,cause) at accessor level, decodability of a mismatching result decided by the codec alone; non-trivial = expected outcome is not OK or the result type mismatches; distinct by the case"
+const ruleC04 = "one call per case: cause in {handler OK (nil status or an explicit status object with code 0), handler status (any int32 code, any msg/cause bytes within the codec's text domain), unknown route, undecodable request body, handler panic, server-side veto at each pre-handler stage, caller-side veto before writing and at each reply-reading stage, connection cut while the handler runs, result-type mismatch} x protocol {raw,json,pb,http,ws+json,ws+pb over the real websocket upgrade} x body codec {json,xml,form} x transfer-filter pipe {none, gzip, md5, gzip+md5} x reply codec asked for {none, json, xml, form, an unregistered id}; oracle: small model of the expected (code,msg,cause) at accessor level, decodability of a mismatching result decided by the codec alone; non-trivial = expected outcome is not OK or the result type mismatches; distinct by the case"
 
 func TestC04Status(t *testing.T) {
 	rec := vt.NewRec(t, "C04", "status", ruleC04)
